@@ -4,6 +4,7 @@ package harness
 // Generation over trees and targets; exhaustive enumeration of every single missing entity block per case.
 
 import (
+	"bytes"
 	"context"
 	"fmt"
 	"github.com/ipfs/go-unixfsnode/file"
@@ -696,4 +697,170 @@ func TestC06_R_ShardWithRepeatedSlotLabel(t *testing.T) {
 			}
 		}
 	}
+}
+
+// File DAGs far deeper than any importer nests them (a ladder: every level holds one chunk and the next level): 513 .. 3000
+// levels are preloaded and walked completely - every block is requested, the bytes are complete, and the walk fails when
+// the deepest block is unavailable.
+func TestC06_R_VeryDeepFileDAGs(t *testing.T) {
+	for _, levels := range []int{511, 512, 513, 700, 3000} {
+		var want []byte
+		leaves := make([][]byte, levels+1)
+		for i := range leaves {
+			leaves[i] = []byte{byte(i), byte(i >> 8), byte(levels), 'x'}
+			want = append(want, leaves[i]...)
+		}
+		node := &mnode{IsRaw: true, Raw: leaves[levels]}
+		size := uint64(len(leaves[levels]))
+		for i := levels - 1; i >= 0; i-- {
+			m := &mnode{HasData: true, UFS: &ufsFields{Type: 2, BlockSizes: []uint64{uint64(len(leaves[i])), size}, FileSize: u64p(uint64(len(leaves[i])) + size)}}
+			m.Links = []mlink{{Tsize: i64p(int64(len(leaves[i]))), Child: &mnode{IsRaw: true, Raw: leaves[i]}}, {Tsize: i64p(int64(size) + 50), Child: node}}
+			node, size = m, size+uint64(len(leaves[i]))
+		}
+		st := NewStore()
+		ls := st.LinkSystem()
+		root, err := node.store(st, ls)
+		if err != nil {
+			t.Fatal(err)
+		}
+		ft, _ := st.FileTree(root, 0)
+		all := ft.PreOrder()
+		if len(all) != 2*levels+1 {
+			t.Fatalf("HARNESS: %d blocks for %d levels", len(all), levels)
+		}
+		pn, _ := loadPlain(ls, root)
+		for _, how := range []string{"unixfs-preload", "entity"} {
+			st.Missing = nil
+			st.ResetLogs()
+			var got []byte
+			var err error
+			must(t, how, func() { got, err = c06DeepWalk(st, ls, pn, root, how) })
+			if err != nil {
+				t.Fatalf("C06: file DAG %d levels deep, %s: %v", levels, how, err)
+			}
+			seen := cidSet(st.ReadLog())
+			for i, c := range all[1:] {
+				if !seen[c] {
+					t.Fatalf("C06: file DAG %d levels deep, %s: block #%d of %d (%s) was never requested", levels, how, i+1, len(all), c)
+				}
+			}
+			if !bytes.Equal(got, want) {
+				t.Fatalf("C06: file DAG %d levels deep, %s: %d bytes delivered, %d expected", levels, how, len(got), len(want))
+			}
+			for _, c := range []cid.Cid{all[len(all)-1], all[len(all)-2], all[len(all)/2]} {
+				st.Missing = map[cid.Cid]bool{c: true}
+				must(t, how, func() { _, err = c06DeepWalk(st, ls, pn, root, how) })
+				if err == nil {
+					t.Fatalf("C06: file DAG %d levels deep, %s: succeeded although block %s is unavailable", levels, how, c)
+				}
+			}
+		}
+	}
+}
+
+func c06DeepWalk(st *Store, ls *ipld.LinkSystem, pn datamodel.Node, root cid.Cid, how string) ([]byte, error) {
+	if how == "unixfs-preload" {
+		rn, err := ls.KnownReifiers["unixfs-preload"](lc0, pn, ls)
+		if err != nil {
+			return nil, err
+		}
+		return rn.AsBytes()
+	}
+	sel, err := selector.CompileSelector(unixfsnode.MatchUnixFSEntitySelector.Node())
+	if err != nil {
+		return nil, err
+	}
+	var out []byte
+	prog := traversal.Progress{Cfg: &traversal.Config{LinkSystem: *ls, LinkTargetNodePrototypeChooser: protoChooser}}
+	err = prog.WalkMatching(pn, sel, func(p traversal.Progress, n datamodel.Node) error {
+		b, err := n.AsBytes()
+		out = b
+		return err
+	})
+	return out, err
+}
+
+// One reified file node that has served positioned reads before: a later whole-file use of that same node (a second
+// reader, AsBytes, the entity walk over it) still asks for every block - nothing an earlier reader opened stands in for a
+// block of the DAG.
+func TestC06_R_WholeUseAfterPositionedReadsOnOneNode(t *testing.T) {
+	rapid.Check(t, func(t *rapid.T) {
+		st := NewStore()
+		w := rapid.IntRange(2, 4).Draw(t, "width")
+		n := rapid.IntRange(w*w*4+1, w*w*w*4+40).Draw(t, "len")
+		content := make([]byte, n)
+		for i := range content {
+			content[i] = byte(i*7 + i>>8)
+		}
+		root, _, err := buildFile(st, content, "size-4", w)
+		if err != nil {
+			t.Fatal(err)
+		}
+		ls := st.LinkSystem()
+		ft, _ := st.FileTree(root, 0)
+		all := ft.PreOrder()
+		rn, err := loadReified(ls, root, "unixfs")
+		if err != nil {
+			t.Fatal(err)
+		}
+		lb := rn.(datamodel.LargeBytesNode)
+		for k := rapid.IntRange(1, 4).Draw(t, "positionedReads"); k > 0; k-- {
+			rs, err := lb.AsLargeBytes()
+			if err != nil {
+				t.Fatal(err)
+			}
+			off := rapid.IntRange(0, n-1).Draw(t, "off")
+			if _, err := rs.Seek(int64(off), io.SeekStart); err != nil {
+				t.Fatal(err)
+			}
+			buf := make([]byte, rapid.IntRange(1, 9).Draw(t, "count"))
+			k, _ := io.ReadFull(rs, buf)
+			if !bytes.Equal(buf[:k], content[off:off+k]) {
+				t.Fatalf("C06: positioned read at %d: %x, expected %x", off, buf[:k], content[off:off+k])
+			}
+		}
+		victim := all[rapid.IntRange(1, len(all)-1).Draw(t, "victim")]
+		how := rapid.SampledFrom([]string{"AsBytes", "reader", "entity-walk"}).Draw(t, "how")
+		run := func() ([]byte, error) {
+			switch how {
+			case "AsBytes":
+				return rn.AsBytes()
+			case "reader":
+				rs, err := lb.AsLargeBytes()
+				if err != nil {
+					return nil, err
+				}
+				return io.ReadAll(rs)
+			}
+			sel, err := selector.CompileSelector(unixfsnode.MatchUnixFSEntitySelector.Node())
+			if err != nil {
+				return nil, err
+			}
+			var out []byte
+			prog := traversal.Progress{Cfg: &traversal.Config{LinkSystem: *ls, LinkTargetNodePrototypeChooser: protoChooser}}
+			err = prog.WalkMatching(rn, sel, func(p traversal.Progress, n datamodel.Node) error {
+				b, err := n.AsBytes()
+				out = b
+				return err
+			})
+			return out, err
+		}
+		st.ResetLogs()
+		var got []byte
+		must(t, how, func() { got, err = run() })
+		if err != nil || !bytes.Equal(got, content) {
+			t.Fatalf("C06: %s on a node that served positioned reads: %d bytes, err %v", how, len(got), err)
+		}
+		seen := cidSet(st.ReadLog())
+		for i, c := range all[1:] {
+			if !seen[c] {
+				t.Fatalf("C06: %s on a node that served positioned reads (%d bytes, width %d): block #%d (%s) was not requested", how, n, w, i+1, c)
+			}
+		}
+		st.Missing = map[cid.Cid]bool{victim: true}
+		must(t, how, func() { _, err = run() })
+		if err == nil {
+			t.Fatalf("C06: %s on a node that served positioned reads (%d bytes, width %d) succeeded although block %s is unavailable", how, n, w, victim)
+		}
+	})
 }
